@@ -74,12 +74,6 @@ def debFromFilename (filename : Str) : Except PyExc Archive :=
 
 /-! ### ordering of archives: tuples `(name, Version, architecture, original_filename)` -/
 
-def strLt : Str → Str → Bool
-  | [], [] => false
-  | [], _ :: _ => true
-  | _ :: _, [] => false
-  | a :: as, b :: bs => if a.toNat < b.toNat then true else if a.toNat > b.toNat then false else strLt as bs
-
 /-- `Version.__lt__` on parsed versions (never raises on parsed versions) -/
 def verLt (a b : Ver) : Bool :=
   match compareVersionObjects a b with
